@@ -30,6 +30,7 @@ type LoopSpec struct {
 	Invariants []Clause
 	Decreases  *Clause
 	Iteration  []Clause // proved at the end of every iteration that completes normally (body locals in scope)
+	AtBreak    []Clause // proved at every `break` that leaves the loop (prev(e) = value when that iteration started)
 }
 
 type CallsiteSpec struct {
@@ -319,6 +320,8 @@ func parseSpecFile(path string, pkgPath string) (*SpecFile, error) {
 				ls.Decreases = &cl
 			case "iteration":
 				ls.Iteration = append(ls.Iteration, cl)
+			case "atbreak":
+				ls.AtBreak = append(ls.AtBreak, cl)
 			default:
 				return nil, fmt.Errorf("%s:%d: loop clause kind %q", path, rc.line, f[1])
 			}
